@@ -21,7 +21,7 @@ warnings.filterwarnings("ignore")
 
 X, U = Space({"x": 1}), Space({"u": 1})
 MENU = ["pinn_static", "boundary", "param_penalty", "pinn_param", "adaptive_w", "data2", "pinn_random", "pideeponet", "periodic_param", "ritz",
-        "pideeponet_r", "pideeponet_r2", "qres"]
+        "pideeponet_r", "pideeponet_r2", "qres", "ritznet", "pinn_static_interval"]
 OPTS = {
     "sgd": dict(cls=torch.optim.SGD, lr=0.05, args={}),
     "sgd_momentum": dict(cls=torch.optim.SGD, lr=0.05, args={"momentum": 0.9}),
@@ -56,6 +56,7 @@ class World:
         self.model = tp.models.FCN(X, U, hidden=(4, 3), activations=tp.models.AdaptiveActivationFunction(nn.Tanh(), inital_a=INITIAL_SLOPE))
         self.model2 = tp.models.FCN(X, U, hidden=(3,))
         self.model3 = tp.models.QRES(X, U, hidden=(3, 2))
+        self.model4 = tp.models.DeepRitzNet(X, U, width=3, depth=2)
         self.D = tp.models.Parameter(init=0.7, space=Space({"D": 1}))
         self.J = tp.models.Parameter(init=0.3, space=Space({"J": 1}))      # only used by the periodic condition
         self.dom = tp.domains.Interval(X, 0.0, 1.0)
@@ -122,6 +123,12 @@ class World:
             net, fset = self.deeponet_r()
             fn = (lambda u, x: u - x) if kind == "pideeponet_r" else (lambda u, x: u + 0.5 * x * x)
             c = Cn.PIDeepONetCondition(net, fset, S.GridSampler(self.dom, 3 if kind == "pideeponet_r" else 2).make_static(), fn, weight=weight, name=kind)
+        elif kind == "ritznet":
+            c = Cn.PINNCondition(self.model4, S.GridSampler(self.dom, 4).make_static(), lambda u, x: u - x * x, weight=weight, name=kind)
+        elif kind == "pinn_static_interval":
+            # a static sampler that draws a fresh set every second use: one sampling call per training step, no other
+            c = Cn.PINNCondition(self.model, S.RandomUniformSampler(self.dom, 3).make_static(resample_interval=2), lambda u, x: u - 2.0 * x,
+                                 weight=weight, name=kind)
         elif kind == "qres":
             c = Cn.PINNCondition(self.model3, S.GridSampler(self.dom, 4).make_static(), lambda u, x: u - torch.cos(2 * x), weight=weight, name=kind)
         elif kind == "periodic_param":
@@ -174,6 +181,12 @@ def learnables(conds):
                 for k, v in vars(m).items():
                     if isinstance(v, torch.Tensor) and not k.startswith("_"):
                         add("%s.%s.%s<attribute>" % (name, mn, k), v)
+                    elif isinstance(v, (list, tuple)) and not k.startswith("_"):
+                        # sub-modules kept in a plain Python list are not registered: their weights are learnable state too
+                        for i_, sub_ in enumerate(v):
+                            if isinstance(sub_, nn.Module):
+                                for n_, p_ in sub_.named_parameters():
+                                    add("%s.%s.%s[%d].%s<unregistered module>" % (name, mn, k, i_, n_), p_)
             for k, v in vars(obj).items():
                 if k.startswith("_") and k not in ("_modules",):
                     continue
